@@ -327,7 +327,7 @@ void traverse_for_images(token * t, DString * text, mmd_engine * e, long * offse
 						for (int j = 0; j < e->link_stack->size; ++j) {
 							l = stack_peek_index(e->link_stack, j);
 
-							if (l->label->start == t->child->start) {
+							if (l->label && l->url && l->label->start == t->child->start) {
 								// This is a match
 								HASH_FIND_STR(e->asset_hash, l->url, a);
 
